@@ -49,7 +49,11 @@ TickClauses(e) ==
     LET sameBlock == SameRun(e) /\ e.block = p.block /\ ~e.scopeChange IN
     << <<"C13.tick-raised", e.exc = "none">>,
        \* C06
-       <<"C06.stopped-iff-no-run", (e.state = "Stopped") = ~e.started>>,
+       \* (site: Stop / Restart has just ended the run and a Pause or Hold command that was still in the executing list ran after it
+       \*  in the same tick - neither command looks at whether a run is active: recorded finding)
+       <<"C06.stopped-iff-no-run" \o (IF ~e.started /\ (e.paused \/ e.holding) /\ p.t >= 0 /\ p.started
+                                       THEN "@pause-or-hold-executed-after-the-run-ended" ELSE ""),
+         (e.state = "Stopped") = ~e.started>>,
        <<"C06.state-matches-flags", e.started => e.state \in {Display(e), "Restarting"}>>,
        <<"C06.restarting-only-during-restart", e.state = "Restarting" => restartWanted>>,
        <<"C06.control-state-agrees",
